@@ -5,6 +5,7 @@ CONSTANTS
   MaxDepth = 1
   StmtDepth = 0
   Effects = FALSE
+  Focus = "all"
   Quirks = TRUE
   EnvCap = 8
   RetTypes <- MC_RetQuick
